@@ -130,10 +130,35 @@ package kv
 
 // glob and directory listings: read-only on the store (their result sets are not under contract:
 // path.Match / path.Clean / strings.Split and the sorts are outside the engine's subset)
-//@ func (*MapStore).GetAll
+// path.Match as an uninterpreted predicate; a malformed pattern is an error whatever the name
+//@ import path "path"
+//@ import slices "slices"
+//@ uninterp func pmatch(pattern string, name string) bool
+//@ func path.Match
 //@   assumed
-//@   requires s != nil
+//@   results matched, err
+//@   ensures err == nil ==> matched == pmatch(pattern, name)
 //@   modifies nothing
+// sorting keeps the elements: everything that was in the slice is in it afterwards and vice versa
+//@ func slices.SortFunc[[]kv.Pair,kv.Pair]
+//@   assumed
+//@   params x, cmp
+//@   ensures forall i int :: 0 <= i && i < len(x) ==> exists j int :: 0 <= j && j < len(x) && x[i] == old(x[j])
+//@   ensures forall j int :: 0 <= j && j < len(x) ==> exists i int :: 0 <= i && i < len(x) && x[i] == old(x[j])
+//@   modifies elems(x)
+
+// GetAll: exactly the stored pairs whose key matches the pattern (as a set; the order is the sort's)
+//@ func (*MapStore).GetAll
+//@   params s, pattern
+//@   results ks, err
+//@   requires s != nil
+//@   ensures [C13.glob.sound] err == nil ==> forall i int :: 0 <= i && i < len(ks) ==> pmatch(pattern, ks[i].Key) && exists k string :: has(s.m, k) && s.m[k] == ks[i]
+//@   ensures [C13.glob.complete] err == nil ==> forall k string :: has(s.m, k) && pmatch(pattern, s.m[k].Key) ==> exists i int :: 0 <= i && i < len(ks) && ks[i] == s.m[k]
+//@   modifies nothing
+//@   loop 0 invariant fresh(ks)
+//@   loop 0 invariant forall i int :: 0 <= i && i < len(ks) ==> pmatch(pattern, ks[i].Key) && exists k string :: has(s.m, k) && s.m[k] == ks[i]
+//@   loop 0 invariant forall k string :: rangeSeen(0, k) ==> has(s.m, k)
+//@   loop 0 invariant forall k string :: rangeSeen(0, k) && pmatch(pattern, s.m[k].Key) ==> exists i int :: 0 <= i && i < len(ks) && ks[i] == s.m[k]
 //@ func (*MapStore).GetAllValues
 //@   assumed
 //@   requires s != nil
